@@ -132,6 +132,32 @@ def run(ck):
             pass
         if iso.iso_id != id0:
             ck.fail_case({**sig, "clause": "identifier changed by read-only calls"}, {"ids": [id0, iso.iso_id]})
+        # ---------------------------------------------------------------- content changed IN PLACE after the identifier has been read: the next read reflects it
+        try:
+            victim = isogen.build(pg, c)
+            _ = victim.iso_id, victim == iso, repr(victim)
+            how = None
+            if c["kind"] == "point":
+                victim.data_raw.loc[victim.data_raw.index[0], victim.loading_key] = float(victim.data_raw[victim.loading_key].iloc[0]) + 0.5
+                how = "data value (data_raw.loc)"
+                fresh_same = pg.PointIsotherm(isotherm_data=victim.data_raw.copy(), pressure_key=victim.pressure_key, loading_key=victim.loading_key, **victim.to_dict())
+            elif c["kind"] == "model":
+                k0 = sorted(victim.model.params)[0]
+                victim.model.params[k0] = victim.model.params[k0] * 1.5
+                how = "model parameter (model.params[...])"
+                fresh_same = None
+            elif isinstance(getattr(victim, "properties", None), dict):
+                victim.properties["pgv_added"] = "x"
+                how = "metadata (properties[...])"
+                fresh_same = None
+            if how:
+                ck.count(("in-place", how, i), bucket="in-place edit:" + how)
+                if victim.iso_id == id0:
+                    ck.fail_case({**sig, "clause": "different content, same identifier", "edit": "in place after the identifier was read: " + how}, {"content": c6short(c)})
+                elif fresh_same is not None and fresh_same.iso_id != victim.iso_id:
+                    ck.fail_case({**sig, "clause": "same content, different identifier", "route": "fresh object with the content of an object edited in place"}, {"ids": [victim.iso_id, fresh_same.iso_id]})
+        except Exception as e:  # noqa
+            ck.count(("in-place-skip", i), nontrivial=False, bucket="in-place edit skipped: " + type(e).__name__)
         # ---------------------------------------------------------------- every single-field edit changes it
         ids_seen = {id0: "original"}
         for name, d in edits(rng, c):
